@@ -101,6 +101,19 @@ def check(repo: Repo, rep: Report) -> None:
                 ok = bool(inits) and all(mentions(v, {sentinel}) for v in inits)
         rep.ob("G1-gating", g, f"with_latest_from emits under {gt}", ok,
                "with_latest_from emits before every other source has a value (or decides by truthiness of the values)")
+    # the other sources are subscribed before the primary: a primary that emits inside subscribe() must already find their
+    # latest values (every child subscription site precedes the primary's)
+    from ..model import is_subscribe_call as _isc
+    for g_ in w.walk():
+        if not g_.is_func:
+            continue
+        prim = [x for x in sites(g_) if _isc(x.node) and isinstance(x.node.func.value, ast.Name) and g_.params and x.node.func.value.id == g_.params[0]]
+        kids = [x for x in sites(g_) if isinstance(x.node, ast.Call) and isinstance(x.node.func, ast.Name) and g_.resolve_local_def(x.node.func.id) is not None
+                and any(_isc(y.node) for y in sites(g_.resolve_local_def(x.node.func.id)))]
+        if prim and kids:
+            rep.ob("G1-gating", g_, "with_latest_from: the other sources are subscribed before the primary", all(k.index < prim[0].index for k in kids),
+                   "with_latest_from subscribes its primary source before the others: primary elements delivered at subscription time are "
+                   "dropped although every other source would have had a value")
     # fork_join
     f = repo.fn("reactivex/observable/forkjoin.py", "fork_join_.subscribe")
     for g, s, k in TC.downstream_sites(f, ("on_next",)):
